@@ -468,8 +468,14 @@ class Plane:
                 amp = self.amplitude * mask[s] if self.amplitude.size == 1 else self.amplitude[s] * mask[s]
                 opd = self.opd if self.opd.size == 1 else self.opd[s]
 
+                # the phasor is evaluated in double precision whatever type
+                # the amplitude and OPD arrays are held in (a float32 OPD map
+                # would otherwise give a complex64 phasor)
+                amp = np.asarray(amp, dtype=np.result_type(np.asarray(amp).dtype, np.float64))
+                opd = np.asarray(opd, dtype=np.result_type(np.asarray(opd).dtype, np.float64))
+
                 # construct complex phasor
-                phasor = Field(data=amp*np.exp(2*np.pi*1j*opd/wavefront.wavelength),
+                phasor = Field(data=amp*np.exp(2*np.pi*1j*opd/float(wavefront.wavelength)),
                                pixelscale=self.pixelscale,
                                offset=lentil.helper.slice_offset(s, self.shape),
                                tilt=self.tilt[n::self.size] if self.tilt else [])
